@@ -56,12 +56,34 @@ class ParserWalker(object):
         self.may_raise = may_raise_summary(port, modname)
         self.ctx_param = 'query_context'
         self.actions_var = self._find_actions_var()
+        self.action_aliases = self._find_action_aliases()
 
     def _find_actions_var(self):
         for st in self.fd.body:
             if isinstance(st, ast.Assign) and isinstance(st.value, ast.Call) and call_name(st.value) == 'separate_actions' and isinstance(st.targets[0], ast.Name):
                 return st.targets[0].id
         raise Undecided('anchor vanished: shallow_parse_input_query does not call separate_actions', self.fd)
+
+    def _find_action_aliases(self):
+        """locals bound exactly once to `<actions>[KEY]` (e.g. `select_action = rb_actions[SELECT]`): name -> KEY"""
+        defs = {}
+        for n in walk_no_nested(self.fd):
+            if isinstance(n, (ast.Assign, ast.AugAssign, ast.For, ast.NamedExpr)):
+                tgts = n.targets if isinstance(n, ast.Assign) else [n.target]
+                for t in tgts:
+                    for x in ast.walk(t):
+                        if isinstance(x, ast.Name):
+                            defs.setdefault(x.id, []).append(n)
+        out = {}
+        for name, ds in defs.items():
+            if len(ds) != 1 or not isinstance(ds[0], ast.Assign) or len(ds[0].targets) != 1 or not isinstance(ds[0].targets[0], ast.Name):
+                continue
+            v = ds[0].value
+            if isinstance(v, ast.Subscript) and isinstance(v.value, ast.Name) and v.value.id == self.actions_var:
+                k = const_value(v.slice, self.consts)
+                if isinstance(k, str):
+                    out[name] = k
+        return out
 
     # ---- atoms
     def key_of(self, e):
@@ -83,6 +105,8 @@ class ParserWalker(object):
                 base = self.key_of(c.slice)
                 if base is not None:
                     return ('{}.{}'.format(base, k), neg)
+            if k is not None and isinstance(c, ast.Name) and c.id in self.action_aliases:
+                return ('{}.{}'.format(self.action_aliases[c.id], k), neg)
         if isinstance(e, ast.Call) and isinstance(e.func, ast.Attribute) and e.func.attr == 'hasOwnProperty' and len(e.args) == 1:
             k = self.key_of(e.args[0])
             r = e.func.value
@@ -92,6 +116,8 @@ class ParserWalker(object):
                 base = self.key_of(r.slice)
                 if base is not None:
                     return ('{}.{}'.format(base, k), False)
+            if k is not None and isinstance(r, ast.Name) and r.id in self.action_aliases:
+                return ('{}.{}'.format(self.action_aliases[r.id], k), False)
         # query_context.top_count is not None
         if isinstance(e, ast.Compare) and len(e.ops) == 1 and (dotted(e.left) or '').endswith('.top_count') and isinstance(e.comparators[0], ast.Constant) and e.comparators[0].value is None:
             if isinstance(e.ops[0], (ast.IsNot, ast.NotEq)):
